@@ -58,6 +58,7 @@ func register(p *Prop) { props[p.ID] = p }
 
 // Ctx collects coverage while a trial runs.
 type Ctx struct {
+	Digest    uint64 // running hash of everything observable about the runs executed (determinism self-test)
 	St        *Stats
 	nontrivial bool
 	quiet     bool
@@ -179,6 +180,15 @@ func (c *Ctx) Run(t *Trial, i int, cs *Case) *Result {
 	}
 	addHash(st.Traces, res.Out.Trace)
 	addHash(st.Partials, res.Out.Partial)
+	d := mix(c.Digest, res.Out.Trace)
+	d = mix(d, uint64(res.Out.Steps)<<8|uint64(res.Out.Kind))
+	d = mix(d, hashBytes(0, res.Stdout))
+	d = mix(d, hashString(res.ErrString()))
+	d = mix(d, hashString(res.Out.Signature()))
+	for _, v := range res.Out.Decisions {
+		d = d*1099511628211 + uint64(v)
+	}
+	c.Digest = d
 	rc.Replay, rc.Arity, rc.Explicit = res.Out.Decisions, res.Out.Arity, true
 	if rc.Replay == nil {
 		rc.Replay = []int32{}
